@@ -68,7 +68,7 @@ def nontrivial(case, truth, res, mask, n):
     for f in fs:
         pres = [d for d in f.get("decos", []) if d["t"] == "require"]
         if any(d["t"] == "snapshot" for d in f.get("decos", [])):
-            if any(not S.is_truthy((truth.get(d["cid"]) or ["T"])[0]) for d in pres):
+            if any(any(not S.is_truthy(code_) for code_ in (truth.get(d["cid"]) or ["T"])) for d in pres):
                 return True
             if (f.get("body") or {}).get("mut", {}).get("x") == "mutate":
                 return True
